@@ -138,13 +138,19 @@ func (t vText) apply(kind, k, salt int) {
 	case vEditSubOOV:
 		t[i][j] = vOOV(salt)
 	case vEditSubVocab:
-		t[i][j] = "license"
+		t[i][j] = vVocabWord
 	case vEditInsertOOV:
 		l := append([]string(nil), t[i][:j]...)
 		l = append(l, vOOV(salt))
 		t[i] = append(l, t[i][j:]...)
 	}
 }
+
+// vVocabWord: the in-vocabulary word that edit kind sub-vocab puts in.
+var vVocabWord = "license"
+
+// vScatterSalts: number of position patterns per (document, density) in family "scatter".
+var vScatterSalts = 4
 
 // vCase is one generated corpus-scale input.
 type vCase struct {
@@ -234,6 +240,75 @@ func vChooseCorpusCase(r *vx.Run, docs []vDoc, families []string) vCase {
 			}
 		}
 		return vCase{fmt.Sprintf("periodic:%s:%s every %d phase %d", d.Key, vEditNames[kind], p, ph), t.bytes(), d.Key}
+	case "clusters":
+		// k edits of mixed kinds at positions from a fixed pseudo-random sequence (linear congruential,
+		// enumerated by its start value): unlike "scatter" the edits come in clumps and leave long
+		// clean runs - the shapes in which an alignment is ambiguous
+		d := docs[r.Choose(len(docs), "doc")]
+		k := []int{8, 12, 16, 24}[r.Choose(4, "edits")]
+		x := uint32(r.Choose(vScatterSalts, "start"))*2654435761 + 12345
+		t := vParse(d.Bytes)
+		n := t.nwords()
+		if n < 30 {
+			return vCase{"exact:" + d.Key, d.Bytes, d.Key}
+		}
+		type ed struct{ pos, kind int }
+		var eds []ed
+		used := map[int]bool{}
+		for len(eds) < k && len(eds) < n/2 {
+			x = x*1664525 + 1013904223
+			p := int((x >> 8) % uint32(n))
+			if used[p] {
+				continue
+			}
+			used[p] = true
+			eds = append(eds, ed{p, int((x >> 4) % vNumEditKinds)})
+		}
+		sort.Slice(eds, func(i, j int) bool { return eds[i].pos > eds[j].pos })
+		for i, e := range eds {
+			t.apply(e.kind, e.pos, i)
+		}
+		return vCase{fmt.Sprintf("clusters:%s:%d edits:start%d", d.Key, k, x), t.bytes(), d.Key}
+	case "edit3":
+		// three edits of any kinds at any three of 14 evenly spread positions
+		d := docs[r.Choose(len(docs), "doc")]
+		t := vParse(d.Bytes)
+		n := t.nwords()
+		if n < 30 {
+			return vCase{"exact:" + d.Key, d.Bytes, d.Key}
+		}
+		const np = 14
+		a := r.Choose(np-2, "pos1")
+		b := a + 1 + r.Choose(np-2-a, "pos2")
+		cpos := b + 1 + r.Choose(np-1-b, "pos3")
+		k1 := r.Choose(vNumEditKinds, "kind1")
+		k2 := r.Choose(vNumEditKinds, "kind2")
+		k3 := r.Choose(vNumEditKinds, "kind3")
+		pa, pb, pc := a*n/np+1, b*n/np+2, cpos*n/np+3
+		t.apply(k3, pc, 11) // later positions first so indices stay valid
+		t.apply(k2, pb, 7)
+		t.apply(k1, pa, 3)
+		return vCase{fmt.Sprintf("edit3:%s:%s@%d+%s@%d+%s@%d", d.Key, vEditNames[k1], pa, vEditNames[k2], pb, vEditNames[k3], pc), t.bytes(), d.Key}
+	case "longnotice":
+		// a copyright notice line of EVERY raw length from about 60 to 1100 bytes, made of words that are
+		// much shorter once cleaned up (addresses in angle brackets), in front of the document: raw and
+		// normalised form of the same line lie on different sides of any length limit in between
+		nd := len(docs)
+		if nd > 2 {
+			nd = 2
+		}
+		d := docs[r.Choose(nd, "doc")]
+		k := 4 + r.Choose(81, "addresses")
+		pad := r.Choose(13, "pad")
+		var sb strings.Builder
+		// (no "(c)": cleaned up it would be a bare "c", and the cleaned line no notice any more)
+		sb.WriteString("Copyright 2001")
+		for i := 0; i < k; i++ {
+			fmt.Fprintf(&sb, " <%c%c@%c%c.org>,", 'a'+i%26, 'a'+(i/26)%26, 'k'+i%7, 'b'+i%11)
+		}
+		sb.WriteString(" " + strings.Repeat("z", pad) + "x")
+		line := sb.String()
+		return vCase{fmt.Sprintf("longnotice:%s:%d bytes", d.Key, len(line)), []byte(line + "\n" + string(d.Bytes)), d.Key}
 	case "selfrepeat":
 		// parts of the text occur twice in one input: the document twice, its longest line (as it is,
 		// or a whole paragraph joined into one line) ahead of it or behind it
@@ -329,12 +404,13 @@ func vChooseCorpusCase(r *vx.Run, docs []vDoc, families []string) vCase {
 		// rotation), density 8..20%, mixed edit kinds; deterministic, enumerated by (doc, density, salt)
 		d := docs[r.Choose(len(docs), "doc")]
 		dens := []int{8, 12, 15, 18, 20}[r.Choose(5, "density")]
-		salt := r.Choose(4, "salt")
+		salt := r.Choose(vScatterSalts, "salt")
 		t := vParse(d.Bytes)
 		n := t.nwords()
 		k := n * dens / 100
 		pos := map[int]int{}
-		x := 0.1 + 0.2*float64(salt)
+		x := 0.1 + 0.2*float64(salt) + 0.013*float64(salt/5)
+		x -= float64(int(x))
 		for i := 0; i < k; i++ {
 			x += 0.6180339887498949
 			x -= float64(int(x))
